@@ -1305,6 +1305,17 @@ def impl_obj(c):
     if eq is None:
         eq = "na"  # equals() itself raises: its totality is property C05, not decidable here
         c.tags = tuple(c.tags) + ("obj:equals-raises(C05)",)
+    if eq is False and isinstance(x, (C.Field, C.Domain)):
+        # `equals` of fields/domains has open C05 findings (greedy matching of identical constructs on
+        # different axes depends on hash order).  The rebuilt container has the same keys, so the independent
+        # structural fingerprint decides: if it is identical, the False verdict is C05's defect, not C19's.
+        try:
+            from harness import fingerprint as _fp
+            if _fp.fingerprint(x) == _fp.fingerprint(y):
+                eq = "na"
+                c.tags = tuple(c.tags) + ("obj:equals-false-fingerprint-equal(C05)",)
+        except Exception:
+            pass
     nc = nc_names(x) == nc_names(y)
     if not nc:
         extra["nc_diff"] = nc_diff(nc_names(x), nc_names(y))
@@ -1430,6 +1441,7 @@ S_SCALARSTR = "scalar-string-data:exec-NameError-or-SyntaxError"
 S_REFDATA = "coordinate-reference-data-valued-parameter:creation_commands-TypeError"
 S_INHERITED = "bounds-with-inherited-properties:rebuilt-not-equal"
 S_NONFINITE = "non-finite-data-value:exec-NameError"
+S_NONFINITE_REFTIME = "non-finite-reference-time-value:str-dump-AttributeError"
 
 
 def _toks(out):
@@ -1530,6 +1542,8 @@ def classify_obj(c, out, ex):
             m = re.search(r"KeyError: '(\w+)'", str(det.get(k)))
             if toks.get(k) == "raised:KeyError" and m and m.group(1) in F["noaxes"]:
                 sigs.append(S_NOAXES_STR)
+            elif toks.get(k) == "raised:AttributeError" and F.get("nonfinite") and "cftime" in str(det.get(k)):
+                sigs.append(S_NONFINITE_REFTIME)
             else:
                 return None
     if toks.get("same") != "1":
